@@ -11,6 +11,7 @@ import (
 	"regexp"
 	"sort"
 	"strings"
+	"unsafe"
 
 	"berty.tech/go-ipfs-log/zvsync"
 
@@ -26,6 +27,9 @@ type Finding struct {
 // Instance is one fresh copy of a scenario's world.
 type Instance struct {
 	Bodies []func()
+	// Focus, when set, restricts preemptive switches (bounded mode) to lock operations on these objects;
+	// switches at blocking points, store accesses, semaphore and condition operations are always explored.
+	Focus []unsafe.Pointer
 	// Check judges the finished execution; outcome is a short canonical description of the
 	// final observable state (used to count distinct outcomes).
 	Check func(res *zvsync.Result) (outcome string, findings []Finding)
@@ -41,6 +45,10 @@ type Options struct {
 	HBCache     bool // unbounded exploration with happens-before state caching
 	MaxExec     int  // safety cap on executions (0 = none)
 	DefaultOnly bool // run the default schedule only (one execution)
+	// DevBound > 0 selects deviation bounding instead of preemption bounding: every schedule that departs from
+	// the default choice (index 0) at no more than DevBound scheduling points, whether the switch is free or not.
+	// It is the bound used for scenarios whose free switches alone are too many (worker pile-ups in the fetcher).
+	DevBound int
 	Deadline    *run.Deadline
 	RaceLog     string // GORACE log_path prefix; empty = no race monitor
 	Shard       int
@@ -152,7 +160,10 @@ func ClassifyRace(report string) (key string, what string) {
 // Explore runs the DFS. report is called for every finding with the schedule that produced it.
 func Explore(sc Scenario, opt Options, report func(c Case, f Finding)) Stats {
 	st := Stats{Outcomes: map[string]int{}, Exhaustive: true}
-	if opt.HBCache {
+	if opt.DevBound > 0 {
+		opt.HBCache = false
+		st.Mode = fmt.Sprintf("deviation-bound=%d", opt.DevBound)
+	} else if opt.HBCache {
 		st.Mode = "unbounded+hbcache"
 	} else {
 		st.Mode = fmt.Sprintf("preemption-bound=%d", opt.Bound)
@@ -189,8 +200,12 @@ func Explore(sc Scenario, opt Options, report func(c Case, f Finding)) Stats {
 			continue
 		}
 		j.Begin(opt.Slot, opt.Property, sc.Name, c)
+		zvsync.SetFocus(inst.Focus)
 		res := zvsync.Run(fr.prefix, false, inst.Bodies...)
 		j.End(opt.Slot)
+		if inst.Focus != nil && !strings.Contains(st.Mode, "focus") {
+			st.Mode += " (focus: preemptions only at the logs' own locks, store accesses, semaphores and condition variables)"
+		}
 		shared := shards > 1 && fr.depth <= 1 // executed by every shard; counted and reported by shard 0 only
 		mine := !shared || opt.Shard == 0
 		if mine {
@@ -252,7 +267,32 @@ func Explore(sc Scenario, opt Options, report func(c Case, f Finding)) Stats {
 		pre := 0
 		stop := false
 		var alts []frame
+		if opt.DevBound > 0 {
+			devs := 0
+			for _, c := range fr.prefix {
+				if c != 0 {
+					devs++
+				}
+			}
+			if devs < opt.DevBound {
+				for i := len(fr.prefix); i < len(res.Points); i++ {
+					p := res.Points[i]
+					for alt := 1; alt < len(p.Enabled); alt++ {
+						np := make([]int, i+1)
+						for k := 0; k < i; k++ {
+							np[k] = res.Points[k].Chosen
+						}
+						np[i] = alt
+						alts = append(alts, frame{prefix: np, depth: fr.depth + 1})
+					}
+				}
+			}
+			stop = true
+		}
 		for i, p := range res.Points {
+			if opt.DevBound > 0 {
+				break
+			}
 			if i >= len(fr.prefix) && opt.HBCache && !raceSeen && !stop {
 				if expanded[p.KeyBefore] {
 					stop = true
@@ -265,6 +305,9 @@ func Explore(sc Scenario, opt Options, report func(c Case, f Finding)) Stats {
 				cost := pre
 				if p.RunningEnabled {
 					cost++
+				}
+				if p.RunningEnabled && !p.RunningFocus && !(opt.HBCache && !raceSeen) {
+					cost = opt.Bound + 1 // not a place where this scenario puts preemptions
 				}
 				if opt.HBCache && !raceSeen || cost <= opt.Bound {
 					for alt := 1; alt < len(p.Enabled); alt++ {
@@ -331,6 +374,7 @@ func Replay(sc Scenario, schedule []int, raceLog string) (*zvsync.Result, string
 		mon.poll()
 	}
 	inst := sc.Make()
+	zvsync.SetFocus(inst.Focus)
 	res := zvsync.Run(schedule, true, inst.Bodies...)
 	var findings []Finding
 	outcome := ""
